@@ -68,6 +68,24 @@ def check_case(prop: str, case, ctx, extra_tag: str = "") -> bool:
                 ok = False
                 break
     res = res2
+    # the public two-step API: parse once, normalise the same parsed object twice and through both entry points
+    mod = importlib.import_module(f"han.{case.vendor}")
+    if all(hasattr(mod, n) for n in ("LlcPdu", "normalize_parsed_frame", "normalize_parsed_notification")):
+        try:
+            parsed = mod.LlcPdu.parse(case.frame)
+            first = mod.normalize_parsed_frame(parsed)
+            second = mod.normalize_parsed_frame(parsed)
+            inner = mod.normalize_parsed_notification(parsed.information.notification_body)
+        except Exception as ex:
+            ctx.violation(f"{prop}:two-step:exception:{p1_mon.where(ex)}", f"{case.vendor} {case.layout}: parse + normalise raised {ex!r:.160}", wit)
+            ok = False
+        else:
+            ctx.count("two_step_normalisations")
+            for label, got, expect in (("first", first, case.expect_frame), ("second", second, case.expect_frame), ("body-of-frame", inner, case.expect_body)):
+                for fld, problem in dlms_gen.compare_dict(got, expect):
+                    ctx.violation(f"{prop}:two-step:{label}-normalisation-differs", f"{case.vendor} {case.layout}: normalising the parsed object ({label}): {fld}: {problem}", wit)
+                    ok = False
+                    break
     # frame vs body on every field except the clock
     (gb, eb), (gf, ef) = res["body"], res["frame"]
     if eb is None and ef is None and isinstance(gb, dict) and isinstance(gf, dict):
@@ -99,3 +117,43 @@ def replay_case(prop: str, case: dict, ctx) -> None:
 
     c = dlms_gen.Case(case["vendor"], case["layout"], case["body"], case["frame"], unplain(case["expect_body"]), unplain(case["expect_frame"]))
     check_case(prop, c, ctx)
+
+
+def run_threads(prop: str, gen, ctx, n_threads: int = 4, n_cases: int = 60) -> None:
+    """The decoders are plain functions: decoding in several threads at once must give every thread its own message's values."""
+    import sys
+    import threading
+
+    rng = ctx.rng(prop, "threads")
+    work = [[gen(rng) for _ in range(n_cases)] for _ in range(n_threads)]
+    problems: list = []
+    barrier = threading.Barrier(n_threads)
+    old = sys.getswitchinterval()
+
+    def worker(cases):
+        barrier.wait()
+        for case in cases:
+            res = decode_both(case.vendor, case)
+            for form, expect in (("body", case.expect_body), ("frame", case.expect_frame)):
+                got, ex = res[form]
+                if ex is not None:
+                    problems.append((form, f"raised {ex!r:.120}", case))
+                    continue
+                for fld, problem in dlms_gen.compare_dict(got, expect):
+                    problems.append((form, f"{fld}: {problem}", case))
+                    break
+
+    sys.setswitchinterval(1e-6)
+    try:
+        threads = [threading.Thread(target=worker, args=(w,)) for w in work]
+        for t in threads:
+            t.start()
+        for t in threads:
+            t.join()
+    finally:
+        sys.setswitchinterval(old)
+    ctx.count("decodes_in_concurrent_threads", n_threads * n_cases * 2)
+    ctx.case(f"{prop}threads", True, n_threads * n_cases)
+    for form, msg, case in problems[:3]:
+        wit = {"vendor": case.vendor, "layout": case.layout, "body": case.body, "frame": case.frame, "expect_body": _plain(case.expect_body), "expect_frame": _plain(case.expect_frame), "threads": True}
+        ctx.violation(f"{prop}:{form}:differs-under-concurrent-threads", f"{case.vendor} {case.layout} {form} decoded in {n_threads} threads at once: {msg} (the same octets decode correctly in one thread)", wit)
